@@ -38,6 +38,14 @@ class EighCapture:
         return False
 
 
+def first_eigh(cap, where):
+    """the first numpy.linalg.eigh call captured inside `where`; the model is fed LAPACK's result, so there has to be one"""
+    from .core import CorrespondenceBroken
+    if not cap.calls:
+        raise CorrespondenceBroken("%s did not call numpy.linalg.eigh: the model cannot be fed the eigen-decomposition it used" % where)
+    return cap.calls[0]
+
+
 def elec_case(rng, N=None, n=None, rho_kind=None, scale=0.05):
     """two fake electronics objects (previous and current step) with symmetric H, antisymmetric couplings"""
     N = N or int(rng.integers(2, 9))
@@ -56,6 +64,13 @@ def elec_case(rng, N=None, n=None, rho_kind=None, scale=0.05):
     d1 = d0 + 0.05 * anti()
     v0 = rng.normal(size=n) * 0.02
     v1 = v0 + rng.normal(size=n) * 0.002
+    if rng.random() < 0.08:
+        # far out in the asymptotic region couplings underflow to EXACTLY zero: diagonal Hamiltonians, no derivative coupling,
+        # the generator W is diagonal; rho still has to be rotated by the phases e^{-i (E_i - E_j) dt}
+        H0 = np.diag(np.diag(H0))
+        H1 = np.diag(np.diag(H1))
+        d0 = np.zeros_like(d0)
+        d1 = np.zeros_like(d1)
     kind = rho_kind or ["pure", "mixed", "basis"][int(rng.integers(0, 3))]
     rho = random_rho(rng, N, kind)
     dt = float(10 ** rng.uniform(-1, 1.3))
